@@ -177,6 +177,17 @@ def bnd_generated(tier, seed):
                 fails.add("missing-bracket-rejected", {"text": mutated[:160], "returned": repr(lib_shape(res))[:120]}, "a definition with a missing closing bracket was accepted")
             except Exception:
                 pass
+        # text after the complete definition that opens a bracket and never closes it, or names an unknown data item: the
+        # definition as a whole has a missing closing bracket / an unknown name and must be rejected (D35)
+        for tail, clause in ((" <", "missing-bracket-rejected"), (" < L < MDLN >", "missing-bracket-rejected"), (" < NOSUCHITEM >", "unknown-item-rejected")):
+            n_eval += 1
+            mutated = text.rstrip() + "\n" + tail
+            try:
+                res = VF.generate(mutated)
+                fails.add(clause, {"text": mutated[-120:], "returned": repr(lib_shape(res))[:120]},
+                          "text after the first complete structure with an unclosed bracket / an unknown data item name was silently ignored")
+            except Exception:
+                pass
         for it in ITEMS[:3]:
             if f"< {it} >" in text:
                 n_eval += 1
